@@ -256,8 +256,11 @@ func (s *fnStash) clone(c *cloner) stasher {
 	}
 	*out = fnStash{
 		dclStash:            *dclStash,
-		arguments:           c.object(s.arguments),
 		indexOfArgumentName: index,
+	}
+	if s.arguments != nil {
+		// A function with a parameter or variable named "arguments" has no arguments object.
+		out.arguments = c.object(s.arguments)
 	}
 	return out
 }
